@@ -10,37 +10,54 @@ import z3
 from . import xr
 
 
-def obligation_smt2(o):
+def _formulas(o, tier):
+    fs = list(o.hyps)
+    if not o.expect_sat:
+        fs.extend((o.defs or {}).values())
+    if tier >= 1:
+        fs.extend(xr.axioms(o.axioms))
+    fs.append(z3.Not(o.goal))
+    if tier == 1:
+        fs.extend(xr.op_axioms())
+    elif tier == 2:
+        fs = [xr.expand_ops(f) for f in fs]
+    return fs
+
+
+def obligation_smt2(o, tier=2):
     s = z3.Solver()
-    for h in o.hyps:
-        s.add(h)
-    for a in xr.axioms(o.axioms):
-        s.add(a)
-    s.add(z3.Not(o.goal))
+    for f in _formulas(o, tier):
+        s.add(f)
     return s.to_smt2()
 
 
+EM = {"smt.auto_config": False, "smt.mbqi": False}
+# (tier, solver config, share of the time budget)
+PLAN = [(0, EM, 0.1), (1, EM, 0.3), (2, EM, 0.3), (2, {}, 0.3)]
+
+
 def _solve(args):
-    smt2, timeout_ms, tactic = args
+    smts, timeout_ms, expect_sat = args
     t0 = time.time()
     try:
         ctx = z3.Context()
-        s = z3.Solver(ctx=ctx)
-        s.set("timeout", timeout_ms)
-        s.from_string(smt2)
-        r = s.check()
-        res = str(r)
-        reason = s.reason_unknown() if r == z3.unknown else ""
-        if r == z3.unknown and tactic:
-            # second attempt with a different configuration
-            s2 = z3.Solver(ctx=ctx)
-            s2.set("timeout", timeout_ms)
-            s2.set("smt.mbqi", False)
-            s2.from_string(smt2)
-            r = s2.check()
-            res = str(r)
-            reason = s2.reason_unknown() if r == z3.unknown else ""
-        return res, time.time() - t0, reason
+        last = ("unknown", "")
+        for tier, cfg, share in PLAN:
+            if smts[tier] is None:
+                continue
+            s = z3.Solver(ctx=ctx)
+            s.set("timeout", max(1000, int(timeout_ms * share)))
+            for k, v in cfg.items():
+                s.set(k, v)
+            s.from_string(smts[tier])
+            r = s.check()
+            if r == z3.unsat:
+                return "unsat", time.time() - t0, "[tier%d%s]" % (tier, "" if cfg else "/default")
+            if r == z3.sat and (tier == 2 or expect_sat):
+                # a model is meaningful only with the full definitions (or for reachability checks)
+                return "sat", time.time() - t0, "[tier%d]" % tier
+            last = ("unknown", "%s at tier %d" % (s.reason_unknown() if r == z3.unknown else "sat without definitions", tier))
+        return last[0], time.time() - t0, last[1]
     except Exception as e:       # pragma: no cover
         return "error", time.time() - t0, repr(e)
 
@@ -56,7 +73,12 @@ def discharge(obls, timeout_s=60, procs=None, retry=True):
         jobs.append(o)
     if not jobs:
         return 0.0
-    payload = [(obligation_smt2(o), int(timeout_s * 1000), retry) for o in jobs]
+    payload = []
+    for o in jobs:
+        if o.expect_sat:
+            payload.append(((obligation_smt2(o, 0), None, None), int(timeout_s * 1000), True))
+        else:
+            payload.append((tuple(obligation_smt2(o, t) for t in (0, 1, 2)), int(getattr(o, "timeout", timeout_s) * 1000), False))
     if len(jobs) == 1 or procs == 1:
         results = [_solve(p) for p in payload]
     else:
@@ -68,6 +90,10 @@ def discharge(obls, timeout_s=60, procs=None, retry=True):
         o.seconds = secs
         o.backend = "z3-%s" % z3.get_version_string()
         total += secs
+        if res == "error":
+            o.status = "error"
+            o.detail = "solver error: %s" % reason
+            continue
         if o.expect_sat:
             o.status = "proved" if res == "sat" else ("failed" if res == "unsat" else "unknown")
             o.detail = "reachability: solver says %s %s" % (res, reason)
@@ -81,11 +107,8 @@ def model_for(o, timeout_s=60, bounds=None):
     """re-solve a failed obligation in-process and return (solver, model) or None"""
     s = z3.Solver()
     s.set("timeout", int(timeout_s * 1000))
-    for h in o.hyps:
-        s.add(h)
-    for a in xr.axioms(o.axioms):
-        s.add(a)
-    s.add(z3.Not(o.goal))
+    for f in _formulas(o, 2):
+        s.add(f)
     if bounds:
         s.push()
         for b in bounds:
